@@ -128,6 +128,17 @@ def cases(rnd: random.Random, thorough: bool) -> list[Case]:
     for k in list(range(0, 101, 7)) + [29, 57, 58, 100]:
         A(Case("put_indoor_humidity", ("37:111111", k / 100), {}, True, {"indoor_humidity": k / 100}))
     A(Case("put_indoor_humidity", ("37:111111", None), {}, True, {"indoor_humidity": None}))
+    for k in range(0, 101):
+        A(Case("put_indoor_humidity", ("37:111111", k / 100), {}, True, {"indoor_humidity": k / 100}))
+    for t in (-40.0, -272.99, 0.0, 127.98, 128.0, 327.66, -0.01):
+        A(Case("put_outdoor_temp", ("37:111111", t), {}, True, {"outdoor_temp": t}))
+    A(Case("put_outdoor_temp", ("37:111111", None), {}, True, {"outdoor_temp": None}))
+    for v in (0, 1, 400, 400.4, 999.5, 1000.5, 32766, 5000):
+        A(Case("put_co2_level", ("37:111111", v), {}, True, {"co2_level": round(v)}))
+    A(Case("put_co2_level", ("37:111111", None), {}, True, {"co2_level": None}))
+    for v in (-1, -0.6, 65536, 1e9):
+        A(Case("put_co2_level", ("37:111111", v), {}, False, {}))
+    A(Case("put_co2_level", ("37:111111", -0.4), {}, True, {"co2_level": 0}))
     for v in (1.01, -0.1, 2):
         A(Case("put_indoor_humidity", ("37:111111", v), {}, False, {}))
     for v in (0, 1, 400, 1999, 5000, 32766):
@@ -366,6 +377,7 @@ def _valkey(v) -> str:
 MODELLED = {
     "get_zone_config": "000A", "get_zone_mode": "2349", "get_zone_setpoint": "2309", "get_zone_temp": "30C9",
     "get_zone_window_state": "12B0", "set_zone_setpoint": "2309", "put_sensor_temp": "30C9", "put_dhw_temp": "1260",
+    "put_outdoor_temp": "1290", "put_co2_level": "1298", "put_indoor_humidity": "12A0",
     "get_dhw_params": "10A0", "get_dhw_temp": "1260", "set_dhw_params": "10A0", "set_zone_config": "000A",
     "get_relay_demand": "0008",
     "get_system_mode": "2E04", "get_system_time": "313F", "get_schedule_version": "0006", "get_system_language": "0100",
@@ -396,7 +408,7 @@ def _model_compare(D: Diff, c: Case, cmd, out=None) -> None:
         if not isinstance(c.args[2], (int, float)):
             return
         args = [c.name, esc(c.args[0]), ix(c.args[1]), f(c.args[2])]
-    elif c.name in ("put_sensor_temp", "put_dhw_temp"):
+    elif c.name in ("put_sensor_temp", "put_dhw_temp", "put_outdoor_temp", "put_co2_level", "put_indoor_humidity"):
         if c.kwargs or not (c.args[1] is None or isinstance(c.args[1], (int, float))):
             return
         args = [c.name, esc(c.args[0]), f(c.args[1])]
